@@ -2,10 +2,6 @@ package gen
 
 import "github.com/IrineSistiana/mosproxy/verifsim/plan"
 
-func genXport(r *rng, seed uint64, focus, arm string) *plan.Plan {
-	return &plan.Plan{Version: 1, Seed: seed, Family: "xport", Focus: focus, Arm: arm}
-}
-
 func genLimiter(r *rng, seed uint64) *plan.Plan {
 	return &plan.Plan{Version: 1, Seed: seed, Family: "limiter", Focus: "C15", Arm: "unit"}
 }
